@@ -206,7 +206,7 @@ func rawFrame(n *kit.Node, src, dst netip.Addr, mt frame.MessageType, sw []byte,
 func TestC10(t *testing.T) {
 	env := kit.GetEnv()
 	rep := kit.NewReport("C10", env)
-	rep.Rule = "(a) converged meshes (all connected graphs on 2-4 routers, lines/rings/stars/trees/grids up to 8 quick / 16 thorough routers, 1- and 2-byte labels): for every ordered pair (A,B) a routed ping-pong from A to B followed to quiescence; (a2) network traffic between every pair of tun-equipped routers across relays with and without a tun interface; (a3) histories on rings, grids and complete graphs: one-way traffic from every router to B, loss of each redundant link (both ends unregister it and flood disconnect notices), traffic from every router to B again, re-announcement by everyone, traffic again - each frame handed to B exactly once whenever the routers' own tables lead from A to B hop by hop over registered links; (b) adversarial forwarding state on complete graphs of 2-4 (thorough 5) routers: every assignment of 'next hop towards D' per router (includes every cycle and dead end), x initial TTL {0,1,2,3,32,255} x message class {signed, encrypted} x entry router/link, for routed frames injected over a link, and for frames each router originates itself under the same forwarding state (at most 31 crossings, TTL below 32 on the first link and strictly decreasing); label-switched frames with switch blocks over {valid path, cyclic, too short for the return label, zero-first, dangling label, non-terminated} x label maps; every link crossing of the injected frame is checked (TTL strictly decreasing, crossings <= TTL0-1, bytes preserved outside TTL/flow/switch block); non-trivial = frame crossed at least one link or had to be refused; distinct = distinct (world, injected frame)"
+	rep.Rule = "(a) converged meshes (all connected graphs on 2-4 routers, lines/rings/stars/trees/grids up to 8 quick / 16 thorough routers, 1- and 2-byte labels): for every ordered pair (A,B) a routed ping-pong from A to B followed to quiescence; (a2) network traffic between every pair of tun-equipped routers across relays with and without a tun interface; (a4) packets of every size within 60 bytes of the pooled-buffer size classes (480, 1480, 4980, 9480) across one relay; (a3) histories on rings, grids and complete graphs: one-way traffic from every router to B, loss of each redundant link (both ends unregister it and flood disconnect notices), traffic from every router to B again, re-announcement by everyone, traffic again - each frame handed to B exactly once whenever the routers' own tables lead from A to B hop by hop over registered links; (b) adversarial forwarding state on complete graphs of 2-4 (thorough 5) routers: every assignment of 'next hop towards D' per router (includes every cycle and dead end), x initial TTL {0,1,2,3,32,255} x message class {signed, encrypted} x entry router/link, for routed frames injected over a link, and for frames each router originates itself under the same forwarding state (at most 31 crossings, TTL below 32 on the first link and strictly decreasing); label-switched frames with switch blocks over {valid path, cyclic, too short for the return label, zero-first, dangling label, non-terminated} x label maps; every link crossing of the injected frame is checked (TTL strictly decreasing, crossings <= TTL0-1, bytes preserved outside TTL/flow/switch block); non-trivial = frame crossed at least one link or had to be refused; distinct = distinct (world, injected frame)"
 	rep.Assumptions = []string{
 		"transit frames are relayed without authentication (by design), so injected frames need no valid seal",
 		"deliveries are sequential (one handler invocation at a time), FIFO in (a); a single unicast frame has one frame in flight at a time, so its delivery order is unique",
@@ -359,6 +359,56 @@ func TestC10(t *testing.T) {
 				}
 			})
 		}
+	}
+
+	// ---------------- (a4) packet sizes around the pooled-buffer size classes across a relay.
+	if mine() {
+		synctest.Test(t, func(t *testing.T) {
+			ms := buildWith(line(3), false, false)
+			ms.converge()
+			a, b := ms.nodes[0], ms.nodes[2]
+			must(kit.KeySessions(a, b))
+			var sizes []int
+			for _, c := range []int{480, 1480, 4980, 9480} {
+				for n := c - 60; n <= c + 60; n++ {
+					sizes = append(sizes, n)
+				}
+			}
+			for _, n := range sizes {
+				pk := make([]byte, n)
+				pk[0], pk[6], pk[7] = 0x60, 6, 64
+				pk[4], pk[5] = byte((n-40)>>8), byte(n-40)
+				sa, sb := a.Identity().IP.As16(), b.Identity().IP.As16()
+				copy(pk[8:24], sa[:])
+				copy(pk[24:40], sb[:])
+				pk[40], pk[41], pk[42], pk[43] = 0x9d, byte(n), 0, 80
+				pk[n-1] = byte(n >> 3)
+				ps := a.FrameBuilder().GetPooledSlice(len(pk))
+				copy(ps, pk)
+				ms.w.Dropped = nil
+				_ = ms.w.TunPacket(a, ps[:len(pk)])
+				ms.drain(1000)
+				evals++
+				nontrivial++
+				got := 0
+				for {
+					select {
+					case f := <-b.TunDevice().SendFrame:
+						if bytes.Equal(f.MessageData(), pk) {
+							got++
+						}
+						f.ReturnToPool()
+						continue
+					default:
+					}
+					break
+				}
+				if got != 1 {
+					rep.Violate("traffic/size-sweep/not-delivered", fmt.Sprintf("a %d-byte packet sent across one relay was handed to the destination's interface %d times (link writer drops: %v)", n, got, ms.w.Dropped), n)
+				}
+			}
+			rep.Outcome("traffic/size-sweep")
+		})
 	}
 
 	// ---------------- (a3) histories: traffic, loss of a redundant link, re-convergence, traffic.
